@@ -2479,9 +2479,15 @@ class ISLaSolver:
             int_vars = vars_in_context["int"]
             flexible_vars = vars_in_context["flexible"]
         else:
+            # Numeric ("NUM") variables are not derived from the grammar; they are
+            # always handled as "int" variables (see `previous_solution_formula`).
             length_vars = set()
-            int_vars = set()
-            flexible_vars = set(variables)
+            int_vars = {
+                var
+                for var in self.infer_variable_contexts(variables, smt_formulas)["int"]
+                if var.is_numeric()
+            }
+            flexible_vars = set(variables).difference(int_vars)
 
         # Add language constraints for "flexible" variables
         formulas: List[z3.BoolRef] = self.generate_language_constraints(
